@@ -20,6 +20,7 @@ RULE_MODULES = {
     'SDO2': 'rules.p_sdo2',
     'HB': 'rules.p_hb',
     'RESET': 'rules.p_reset',
+    'RF14': 'rules.rf14_elem',
 }
 
 
@@ -77,14 +78,14 @@ PROPERTIES = {
         'not_decided': 'interleaving semantics under preemption',
     },
     'C13': {
-        'rules': ['RF5', 'RF6', 'PDO'],
+        'rules': ['RF5', 'RF6', 'PDO', 'RF14'],
         'technique': 'interval analysis of mapping-table subscripts, non-null dataflow on the synchronous-RPDO table',
         'explanation': 'RF6: every subscript of CO_RPDO.Map/Size (including the dummy expansion Map[on+dummy]) and of the '
                        'SYNC tables is in range; RF5: Sync.RPdo[i] is tested before it is dereferenced.',
         'not_decided': 'field values written',
     },
     'C02': {
-        'rules': ['SDO2', 'SDO'],
+        'rules': ['SDO2', 'SDO', 'RF14'],
         'exhaustive': False,
         'technique': 'response-template folding (RF13) of the five download handlers over input classes, toggle / sequence '
                      'guard tables, constant folding of the per-server buffer offset, must-write vs upward-exposed-read '
@@ -97,7 +98,7 @@ PROPERTIES = {
         'not_decided': 'object == payload for every size and segmentation (data movement through counters)',
     },
     'C03': {
-        'rules': ['SDO2'],
+        'rules': ['SDO2', 'RF14'],
         'exhaustive': False,
         'technique': 'response-template folding (RF13) of the upload handlers, call-graph effect rule, must-write vs '
                      'upward-exposed-read sets across frames',
@@ -108,7 +109,7 @@ PROPERTIES = {
         'not_decided': 'reassembled bytes for every acknowledge pattern (go-back-N arithmetic)',
     },
     'C04': {
-        'rules': ['SDO'],
+        'rules': ['SDO', 'RF14'],
         'exhaustive': True,
         'technique': 'decision-table extraction by constant folding of the dispatcher guards over all 256 command '
                      'bytes x 5 block states, verdict tables, return-path discipline, must-pass-through',
@@ -121,7 +122,7 @@ PROPERTIES = {
         'not_decided': 'side-effect freedom of user-supplied type functions; response payload values',
     },
     'C05': {
-        'rules': ['SDO', 'SDO2'],
+        'rules': ['SDO', 'SDO2', 'RF14'],
         'exhaustive': True,
         'technique': 'decision-table extraction, must-store on all paths, guard-before-use dataflow',
         'explanation': 'Necessary conditions for "no history wedges a server": client abort 80h reaches the reset '
@@ -156,7 +157,7 @@ PROPERTIES = {
         'not_decided': 'sequence semantics beyond the step guards',
     },
     'C14': {
-        'rules': ['PDOCFG', 'RF6', 'PDO'],
+        'rules': ['PDOCFG', 'RF6', 'PDO', 'RF14'],
         'exhaustive': True,
         'technique': 'decision-table extraction: each PDO parameter Write function folded over valid bit x count x target '
                      'existence x access flags x new value classes; verdict = stored / refused-with-nothing-stored',
@@ -199,13 +200,13 @@ PROPERTIES = {
         'not_decided': 'tick-exact heartbeat schedule',
     },
     'C11': {
-        'rules': ['RF3', 'HB', 'RF5'],
+        'rules': ['RF3', 'HB', 'RF5', 'NMT'],
         'explanation': 'Timer-handle typestate for CO_HBCONS.Tmr: re-arm deletes first, deactivation deletes, no armed '
                        'handle overwritten on any path.',
         'not_decided': 'timeout timing',
     },
     'C12': {
-        'rules': ['RF3', 'RF6', 'PDO'],
+        'rules': ['RF3', 'RF6', 'PDO', 'RF14'],
         'explanation': 'Timer-handle typestate for CO_TPDO.EvTmr/InTmr and the verified invariant '
                        '"(Flags & I) == 0 <=> InTmr released" (establish / arm / release obligations).',
         'not_decided': 'emission timing multiset',
@@ -216,7 +217,7 @@ PROPERTIES = {
         'not_decided': 'period exactness',
     },
     'C19': {
-        'rules': ['RF3', 'CSDO'],
+        'rules': ['RF3', 'CSDO', 'RF14'],
         'explanation': 'Timer-handle typestate for CO_CSDO_TRANSFER.Tmr and the verified invariant '
                        '"State != BUSY => Tfer.Tmr released".',
         'not_decided': 'data equality',
